@@ -129,3 +129,73 @@ func c17CoercerKindsScenario(x *mc.X) *mc.Outcome {
 	}
 	return out
 }
+
+// Test options are values the caller owns; a list of them may be longer than what one call is given
+// (opts[:1] to one test, opts... to the next). "Options affect only the test they were passed to" — and passing
+// them changes nothing in the caller's list. One execution = one pair of tests on one schema kind, the first given
+// a prefix of the caller's list, the second the whole list; both behave like tests given fresh copies.
+func c17OptionSliceScenario(x *mc.X) *mc.Outcome {
+	zh.Reset()
+	zh.Install(x, zh.PoolLIFO, zh.OrderSorted)
+	first := x.Choose(4, "first test")   // TestFunc on String, TestFunc on Int, Test(z.TestFunc(...)) on String, Min on String
+	prefix := x.Choose(3, "prefix length") // how many of the three options the first test is given
+	mkOpts := func(shared bool) (a, b []z.TestOption) {
+		m1, c2, p3 := z.Message("own message"), z.IssueCode("own_code"), z.IssuePath("own.path")
+		if shared {
+			all := make([]z.TestOption, 0, 4) // spare capacity behind the three options
+			all = append(all, m1, c2, p3)
+			return all[:prefix], all
+		}
+		return []z.TestOption{m1, c2, p3}[:prefix:prefix], []z.TestOption{m1, c2, p3}
+	}
+	run := func(shared bool) []string {
+		a, b := mkOpts(shared)
+		var out []string
+		add := func(l z.ZogIssueList) {
+			for _, is := range l {
+				out = append(out, fmt.Sprintf("%s|%s|%s", is.Path, is.Code, is.Message))
+			}
+		}
+		never := func(v any, c z.Ctx) bool { return false }
+		switch first {
+		case 0:
+			s := z.String().TestFunc(never, a...).Min(3, b...)
+			for _, in := range []string{"ab", "abcd"} {
+				var d string
+				add(s.Parse(in, &d))
+				out = append(out, "--")
+			}
+		case 1:
+			s := z.Int().TestFunc(never, a...).GT(10, b...)
+			for _, in := range []int{5, 50} {
+				var d int
+				add(s.Parse(in, &d))
+				out = append(out, "--")
+			}
+		case 2:
+			s := z.String().Test(z.TestFunc("reusable", never, a...)).Not().Email(b...)
+			for _, in := range []string{"a@b.co", "nope"} {
+				var d string
+				add(s.Parse(in, &d))
+				out = append(out, "--")
+			}
+		default:
+			s := z.String().Max(1, a...).Min(3, b...)
+			for _, in := range []string{"ab", "abcd", "a"} {
+				var d string
+				add(s.Parse(in, &d))
+				out = append(out, "--")
+			}
+		}
+		return out
+	}
+	got, want := run(true), run(false)
+	zh.Reset()
+	out := &mc.Outcome{Traces: 2, Nontrivial: true, Sig: fmt.Sprintf("optslice|%d|%d", first, prefix)}
+	out.Sample = map[string]any{"first_test": first, "prefix": prefix, "issues": want}
+	if !eqStrings(got, want) {
+		x.Note("caller's list of three options (Message, IssueCode, IssuePath) with spare capacity; the first test (%d: 0 String.TestFunc, 1 Int.TestFunc, 2 String.Test(z.TestFunc), 3 String.Max) is given the first %d, the second test the whole list", first, prefix)
+		out.Viol = append(out.Viol, &mc.Violation{Key: fmt.Sprintf("C17:options-from-a-shared-list:%d", first), What: "tests given slices of one caller-owned option list do not behave like tests given fresh copies of the same options", Expected: fmt.Sprint(want), Observed: fmt.Sprint(got)})
+	}
+	return out
+}
